@@ -24,6 +24,7 @@ pub fn run_line(line: &str) -> String {
         "ord" => crate::laws::run_ord(&mut t),
         "script" => crate::script::run_script(&mut t),
         "tmrange" => crate::timerange::run_tmrange(&mut t),
+        "scanrange" => crate::lang::run_scanrange(&mut t),
         "mathlaw" => crate::laws::run_mathlaw(&mut t),
         "poslaw" => crate::laws::run_poslaw(&mut t),
         "sortlaw" => crate::laws::run_sortlaw(&mut t),
